@@ -17,4 +17,5 @@ void tk12_finished(const unsigned char ms[48], int is_client, const buf_t *msgs,
 int  tk12_gcm_seal(const unsigned char *key, int keylen, const unsigned char salt[4], uint64_t seq, int type, const unsigned char *pt, int ptlen, unsigned char *rec);
 int  tk12_gcm_seal_ex(const unsigned char *key, int keylen, const unsigned char salt[4], const unsigned char seq8[8], const unsigned char *hdr, int hdrlen, const unsigned char *pt, int ptlen, unsigned char *rec);
 int  tk12_cbc_seal_ex(const unsigned char *key, int keylen, const unsigned char *mackey, int maclen, const unsigned char seq8[8], const unsigned char *hdr, int hdrlen, const unsigned char *pt, int ptlen, int padmode, unsigned char *rec);
+int  tk12_cbc_raw_seal(const unsigned char *key, int keylen, const unsigned char *hdr, int hdrlen, const unsigned char *pt, int ptlen, unsigned char *rec);
 #endif
